@@ -488,7 +488,9 @@ def _members(ast) -> t.List[t.Any]:
         out.append(types.MappingProxyType(dict(zip(ks, [m[0] for m in ms]))))
         return out
     if c in _MAP_IMAGE:
-        km = [x for x in members(ast[1]) if _hashable_data([x])]
+        # data keys must be hashable: spell sequence-shaped key data with tuples all the way down
+        km = values.dedupe([_deep_tuple(x) for x in members(ast[1])])
+        km = [x for x in km if _hashable_data([x])]
         vm = members(ast[2]) if c != 'counter' else [1, 0, 5]
         out = [{}]
         if km:
@@ -515,6 +517,12 @@ def _members(ast) -> t.List[t.Any]:
             return members(ast[1])
         return good or members(ast[1])[:1]
     raise KeyError(c)
+
+
+def _deep_tuple(x):
+    if type(x) in (list, tuple):
+        return tuple(_deep_tuple(e) for e in x)
+    return x
 
 
 def _hashable_data(x):
